@@ -41,7 +41,8 @@ const deadPort = 1 // nothing listens on 127.0.0.1:1 -> the server's peer fan-ou
 
 var allSites = []string{"udp.ready", "udp.done", "migrate.catchup", "migrate.beforeLock", "wt.afterList", "wt.beforeUpdate",
 	"sync.ready", "sync.afterCopy", "auth.ready", "auth.afterSave", "as.get.ready", "as.post.ready", "as.gap1", "as.gap2",
-	"stats.ready", "stats.afterUnlock", "equipment.ready", "order.ready", "order.gap", "register.ready", "recent.ready", "archive.beforeFile"}
+	"stats.ready", "stats.afterUnlock", "equipment.ready", "order.ready", "order.gap", "register.ready", "recent.ready", "archive.beforeFile",
+	"equipment.afterUnlock", "recent.afterUnlock", "as.get.afterUnlock"}
 
 type hookCell struct {
 	site string
@@ -468,4 +469,56 @@ func le32(v uint32) []byte {
 	var b [4]byte
 	binary.LittleEndian.PutUint32(b[:], v)
 	return b[:]
+}
+
+
+// apiAgreesWithState compares what the GET endpoints answer at rest with the
+// state the server holds (snapshot taken under the server's own locks): an
+// answer computed from anything but the current state - e.g. a copy taken by
+// an earlier request - is observable here and nowhere in the snapshot.
+func apiAgreesWithState(w *cw, snap *server.VerifSnap, ctx string, replay map[string]interface{}) {
+	r := w.r
+	code, eq, err := w.Equipment()
+	if err != nil || code != 200 {
+		r.Count("api_vs_state.transport_errors", 1)
+		return
+	}
+	var diffs []string
+	for id, a := range snap.Equipment {
+		g, ok := eq[id]
+		switch {
+		case !ok:
+			diffs = append(diffs, fmt.Sprintf("device %d is authorized but GET /equipment does not list it", id))
+		case g.Pub != [32]byte(a.PublicKey) || g.Debt != a.Debt || g.Capacity != a.Capacity || g.Expiration != a.Expiration:
+			diffs = append(diffs, fmt.Sprintf("device %d: GET /equipment shows another authorization than the server holds", id))
+		}
+	}
+	for id := range eq {
+		if _, ok := snap.Equipment[id]; !ok {
+			diffs = append(diffs, fmt.Sprintf("GET /equipment lists device %d which the server does not hold (banned or never authorized)", id))
+		}
+	}
+	code, srvs, err := w.AuthorizedServers()
+	if err != nil || code != 200 {
+		r.Count("api_vs_state.transport_errors", 1)
+		return
+	}
+	have := map[[32]byte]bool{}
+	for _, s := range srvs {
+		have[s.Pub] = s.Banned
+	}
+	if len(srvs) != len(snap.Servers) {
+		diffs = append(diffs, fmt.Sprintf("GET /authorized-servers lists %d servers, the server holds %d", len(srvs), len(snap.Servers)))
+	}
+	for _, s := range snap.Servers {
+		if b, ok := have[[32]byte(s.PublicKey)]; !ok || b != s.Banned {
+			diffs = append(diffs, fmt.Sprintf("server %x: GET /authorized-servers listed=%v banned=%v, the server holds banned=%v", s.PublicKey[:4], ok, b, s.Banned))
+		}
+	}
+	r.Count("api_vs_state.checks", 1)
+	if len(diffs) > 0 {
+		sort.Strings(diffs)
+		replay["differences"] = diffs
+		r.Violationf("api-answer-differs-from-state-at-rest", replay, "after %s the GET endpoints do not show the state the server holds: %v", ctx, diffs)
+	}
 }
